@@ -82,6 +82,10 @@ def script(draw, min_asserts=1, max_asserts=8):
         cmds.append(['set-info', ':status', draw(st.sampled_from(['sat', 'unsat', 'unknown']))])
     if draw(st.integers(0, 4)) == 0:
         cmds.append(['set-option', ':produce-models', 'true'])
+    unicode_ = draw(st.integers(0, 3)) == 0
+    if unicode_:
+        # non-ASCII text is legal inside string literals, quoted symbols and comments
+        cmds.append(['set-info', ':source', '|caf\u00e9 \u2200x \u65e5\u672c|'])
     cmds.extend(DECLS)
     n = draw(st.integers(min_asserts, max_asserts))
     for _ in range(n):
@@ -102,7 +106,9 @@ def script(draw, min_asserts=1, max_asserts=8):
         cmds.append(['get-model'])
     if draw(st.booleans()):
         cmds.append(['exit'])
-    lines = []
+    if unicode_:
+        cmds.insert(len(cmds) - 1, ['assert', ['=', '"\u00fc\u00f1\u00ef \U0001f600"', '"\u00fc\u00f1\u00ef \U0001f600"']])
+    lines = ['; \u00fcnic\u00f6d\u00e9 comment \u2713'] if unicode_ else []
     for c in cmds:
         if draw(st.integers(0, 14)) == 0:
             lines.append('; a comment (with parens) "and quotes"')
